@@ -296,6 +296,11 @@ type GateResult struct {
 // target crosses an edge whose atom satisfies pass(). The witness lists the
 // branch decisions of a bypassing path.
 func (fi *FuncInfo) MustCross(target ssa.Instruction, pass func(Atom) bool) GateResult {
+	return fi.MustCrossEdges(target, pass, nil)
+}
+
+// MustCrossEdges is MustCross restricted to gate edges accepted by edgeOK (nil = all).
+func (fi *FuncInfo) MustCrossEdges(target ssa.Instruction, pass func(Atom) bool, edgeOK func(Edge) bool) GateResult {
 	fn := fi.Fn
 	if target.Parent() != fn {
 		return GateResult{OK: false, Witness: "target not in function"}
@@ -306,6 +311,9 @@ func (fi *FuncInfo) MustCross(target ssa.Instruction, pass func(Atom) bool) Gate
 		if pass(ea.A) {
 			// an If whose two successors are the same block is not a gate
 			if ea.E.From.Succs[0] == ea.E.From.Succs[1] {
+				continue
+			}
+			if edgeOK != nil && !edgeOK(ea.E) {
 				continue
 			}
 			isGate[ea.E] = true
@@ -387,49 +395,48 @@ func (fi *FuncInfo) MustCrossAtom(target ssa.Instruction, want Atom) GateResult 
 	return fi.MustCross(target, func(a Atom) bool { return a.Implies(want) })
 }
 
-// StableBetween checks, for every gate edge whose atom implies want, that
-// (a) the values the condition reads are fresh at the branch (no write to the
-// fields it mentions between the load and the If), and (b) on no path from the
-// gate edge to target (without re-evaluating the gate) a field mentioned in the
-// condition may be written. It returns the offending instruction if any.
-func (fi *FuncInfo) StableBetween(target ssa.Instruction, want Atom) (bool, string) {
+// EdgeStable decides, for one gate edge, that (a) the values the condition
+// reads are fresh at the branch (no write to the fields it mentions between the
+// load and the If), and (b) on no path from the gate edge to target that does
+// not re-evaluate the gate a field mentioned in the condition may be written.
+func (fi *FuncInfo) EdgeStable(e Edge, target ssa.Instruction) (bool, string) {
 	p := fi.P
 	p.buildStoreIdx()
+	a, ok := fi.EdgeAtom(e)
+	if !ok {
+		return true, ""
+	}
+	var exprs []*Expr
+	for _, x := range []*Expr{a.LE, a.RE} {
+		if x != nil {
+			exprs = append(exprs, x)
+		}
+	}
+	iff := e.From.Instrs[len(e.From.Instrs)-1].(*ssa.If)
+	for _, ld := range condLoads(iff.Cond) {
+		li, ok := ld.(ssa.Instruction)
+		if !ok || li.Parent() != fi.Fn {
+			continue
+		}
+		if bad := fi.writeOnPaths(li.Block(), instrIndex(li)+1, iff, nil, []*Expr{fi.Sym(ld)}); bad != "" {
+			return false, fmt.Sprintf("%s between the read of the guarded value and the guard [%s]", bad, a)
+		}
+	}
+	start := e.From.Succs[e.Succ]
+	if bad := fi.writeOnPaths(start, 0, target, e.From, exprs); bad != "" {
+		return false, fmt.Sprintf("%s between gate [%s] and target", bad, a)
+	}
+	return true, ""
+}
+
+// StableBetween: every gate edge implying want is stable (kept for callers that
+// want the strict form).
+func (fi *FuncInfo) StableBetween(target ssa.Instruction, want Atom) (bool, string) {
 	for _, ea := range fi.AllEdgeAtoms() {
-		if !ea.A.Implies(want) {
-			continue
-		}
-		fields := map[*types.Var]bool{}
-		for _, e := range []*Expr{ea.A.LE, ea.A.RE} {
-			for _, v := range e.Fields() {
-				fields[v] = true
+		if ea.A.Implies(want) {
+			if ok, why := fi.EdgeStable(ea.E, target); !ok {
+				return false, why
 			}
-		}
-		if len(fields) == 0 {
-			continue
-		}
-		iff := ea.E.From.Instrs[len(ea.E.From.Instrs)-1].(*ssa.If)
-		// (a) freshness of loads feeding the condition
-		for _, ld := range condLoads(iff.Cond) {
-			lf := map[*types.Var]bool{}
-			for _, v := range fi.Sym(ld).Fields() {
-				lf[v] = true
-			}
-			if len(lf) == 0 {
-				continue
-			}
-			li, ok := ld.(ssa.Instruction)
-			if !ok || li.Parent() != fi.Fn {
-				continue
-			}
-			if bad := fi.writeOnPaths(li.Block(), instrIndex(li)+1, iff, nil, lf); bad != "" {
-				return false, fmt.Sprintf("%s between the read of the guarded value and the guard [%s]", bad, ea.A)
-			}
-		}
-		// (b) gate edge -> target
-		start := ea.E.From.Succs[ea.E.Succ]
-		if bad := fi.writeOnPaths(start, 0, target, ea.E.From, fields); bad != "" {
-			return false, fmt.Sprintf("%s between gate [%s] and target", bad, ea.A)
 		}
 	}
 	return true, ""
@@ -472,48 +479,83 @@ func condLoads(v ssa.Value) []ssa.Value {
 	return out
 }
 
-// writeOnPaths scans every path starting at (b, idx) up to (not including)
-// `until`, never expanding through stopBlock, and reports the first instruction
-// that may write one of the fields.
-func (fi *FuncInfo) writeOnPaths(b *ssa.BasicBlock, idx int, until ssa.Instruction, stopBlock *ssa.BasicBlock, fields map[*types.Var]bool) string {
+// writeOnPaths scans the instructions lying on some path from (b, idx) to
+// `until` that does not pass through stopBlock, and reports the first one that
+// may write a location one of the expressions reads.
+func (fi *FuncInfo) writeOnPaths(b *ssa.BasicBlock, idx int, until ssa.Instruction, stopBlock *ssa.BasicBlock, exprs []*Expr) string {
 	p := fi.P
-	canReach := reachBack(until.Block())
-	if !canReach[b] {
+	ub := until.Block()
+	scan := func(blk *ssa.BasicBlock, from, to int) string {
+		for i := from; i < to && i < len(blk.Instrs); i++ {
+			if bad := p.mayWriteExprs(blk.Instrs[i], exprs); bad != "" {
+				return fmt.Sprintf("%s writes %s", p.PosStr(blk.Instrs[i].Pos(), fi.Fn), bad)
+			}
+		}
 		return ""
 	}
-	type item struct {
-		b *ssa.BasicBlock
-		i int
+	if b == ub && idx <= instrIndex(until) {
+		// straight-line case first
+		if bad := scan(b, idx, instrIndex(until)); bad != "" {
+			return bad
+		}
+		// (a longer path around a loop back to the same block is covered below only if b is in a cycle not through stopBlock)
 	}
-	seen := map[*ssa.BasicBlock]bool{}
-	stack := []item{{b, idx}}
-	first := true
+	// forward set: blocks reachable from b's successors without expanding stopBlock or ub
+	fwd := map[*ssa.BasicBlock]bool{}
+	var stack []*ssa.BasicBlock
+	push := func(from *ssa.BasicBlock) {
+		for si, s := range from.Succs {
+			if FeasibleSucc(from, si) && !fwd[s] && s != stopBlock {
+				fwd[s] = true
+				stack = append(stack, s)
+			}
+		}
+	}
+	if b != ub || idx > instrIndex(until) {
+		push(b)
+	} else {
+		return ""
+	}
 	for len(stack) > 0 {
-		it := stack[len(stack)-1]
+		x := stack[len(stack)-1]
 		stack = stack[:len(stack)-1]
-		if !first && it.b == stopBlock {
+		if x == ub {
 			continue
 		}
-		first = false
-		hitUntil := false
-		for i := it.i; i < len(it.b.Instrs); i++ {
-			in := it.b.Instrs[i]
-			if in == until {
-				hitUntil = true
-				break
-			}
-			if bad := p.mayWrite(in, fields); bad != "" {
-				return fmt.Sprintf("%s writes %s", p.PosStr(in.Pos(), fi.Fn), bad)
+		push(x)
+	}
+	if !fwd[ub] {
+		return "" // until not reachable from here without re-evaluating the gate
+	}
+	// backward set: blocks that reach ub without passing stopBlock
+	bwd := map[*ssa.BasicBlock]bool{ub: true}
+	stack = []*ssa.BasicBlock{ub}
+	for len(stack) > 0 {
+		x := stack[len(stack)-1]
+		stack = stack[:len(stack)-1]
+		for _, pr := range x.Preds {
+			if !bwd[pr] && pr != stopBlock {
+				bwd[pr] = true
+				stack = append(stack, pr)
 			}
 		}
-		if hitUntil {
+	}
+	// first block remainder
+	if bwd[b] || b == ub {
+		if bad := scan(b, idx, len(b.Instrs)); bad != "" && b != ub {
+			return bad
+		}
+	}
+	for _, blk := range fi.Fn.Blocks {
+		if !fwd[blk] || !bwd[blk] || blk == b {
 			continue
 		}
-		for si, s := range it.b.Succs {
-			if !seen[s] && canReach[s] && FeasibleSucc(it.b, si) {
-				seen[s] = true
-				stack = append(stack, item{s, 0})
-			}
+		to := len(blk.Instrs)
+		if blk == ub {
+			to = instrIndex(until)
+		}
+		if bad := scan(blk, 0, to); bad != "" {
+			return bad
 		}
 	}
 	return ""
@@ -535,20 +577,62 @@ func reachBack(b *ssa.BasicBlock) map[*ssa.BasicBlock]bool {
 	return seen
 }
 
-// mayWrite returns the name of a field in the set that the instruction may write.
-func (p *Program) mayWrite(in ssa.Instruction, fields map[*types.Var]bool) string {
+// mayWriteExprs: may the instruction write a memory location that one of the
+// expressions reads? Field-based, with one refinement: a location rooted at an
+// object allocated in this function can be written by a callee only if that
+// object is passed to it.
+func (p *Program) mayWriteExprs(in ssa.Instruction, exprs []*Expr) string {
+	type loc struct {
+		f    *types.Var
+		root *Expr
+	}
+	var locs []loc
+	var rec func(x *Expr)
+	rec = func(x *Expr) {
+		if x == nil {
+			return
+		}
+		if x.Op == "fld" && x.Var != nil {
+			locs = append(locs, loc{x.Var, x.Root()})
+		}
+		for _, a := range x.Args {
+			rec(a)
+		}
+	}
+	for _, e := range exprs {
+		rec(e)
+	}
+	if len(locs) == 0 {
+		return ""
+	}
+	localRoot := func(r *Expr) *ssa.Alloc {
+		if r == nil {
+			return nil
+		}
+		a, _ := r.Val.(*ssa.Alloc)
+		return a
+	}
 	if e, ok := p.storePaths[in]; ok {
 		x := e
 		for x != nil && (x.Op == "idx" || x.Op == "conv") {
 			x = x.Args[0]
 		}
-		if x != nil && x.Op == "fld" && fields[x.Var] {
-			if r := x.Root(); r != nil {
-				if a, ok := r.Val.(*ssa.Alloc); ok && !a.Heap {
-					return ""
+		if x != nil && x.Op == "fld" {
+			wr := localRoot(x.Root())
+			for _, l := range locs {
+				if l.f != x.Var {
+					continue
 				}
+				lr := localRoot(l.root)
+				if wr != nil && lr != nil && wr != lr {
+					continue // different local objects
+				}
+				if (wr != nil) != (lr != nil) {
+					// one side is a fresh local object, the other is reached through a parameter: distinct unless the local escaped
+					continue
+				}
+				return x.Var.Name()
 			}
-			return x.Var.Name()
 		}
 	}
 	if ci, ok := in.(ssa.CallInstruction); ok {
@@ -558,17 +642,55 @@ func (p *Program) mayWrite(in ssa.Instruction, fields map[*types.Var]bool) strin
 		if _, isGo := in.(*ssa.Go); isGo {
 			return ""
 		}
+		fi := p.Info(in.Parent())
+		for _, c := range p.CalleesOf(ci) {
+			if !p.inRepo(c) {
+				continue
+			}
+			ms := p.ModSet(c)
+			for _, l := range locs {
+				if !ms[l.f] {
+					continue
+				}
+				if lr := localRoot(l.root); lr != nil {
+					passed := false
+					for _, a := range ci.Common().Args {
+						if _, basic := a.Type().Underlying().(*types.Basic); basic {
+							continue // a scalar copy gives no access to the object
+						}
+						if r := fi.Sym(a).Root(); r != nil && r.Val == ssa.Value(lr) {
+							passed = true
+						}
+					}
+					if !passed {
+						continue
+					}
+				}
+				return l.f.Name() + " (via " + p.FuncName(c) + ")"
+			}
+		}
+	}
+	return ""
+}
+
+// mayWrite is the field-set form kept for simple callers.
+func (p *Program) mayWrite(in ssa.Instruction, fields map[*types.Var]bool) string {
+	if e, ok := p.storePaths[in]; ok {
+		x := e
+		for x != nil && (x.Op == "idx" || x.Op == "conv") {
+			x = x.Args[0]
+		}
+		if x != nil && x.Op == "fld" && fields[x.Var] {
+			return x.Var.Name()
+		}
+	}
+	if ci, ok := in.(ssa.CallInstruction); ok {
 		for _, c := range p.CalleesOf(ci) {
 			ms := p.ModSet(c)
-			var names []string
 			for f := range fields {
 				if ms[f] {
-					names = append(names, f.Name())
+					return f.Name() + " (via " + p.FuncName(c) + ")"
 				}
-			}
-			if len(names) > 0 {
-				sort.Strings(names)
-				return names[0] + " (via " + p.FuncName(c) + ")"
 			}
 		}
 	}
@@ -588,6 +710,12 @@ type FollowResult struct {
 // in panic are accepted. `stopAt` (optional) marks instructions that end the
 // obligation as satisfied as well (e.g. loop back to a re-check).
 func (fi *FuncInfo) AlwaysFollowedBy(from ssa.Instruction, hit func(ssa.Instruction) bool) FollowResult {
+	return fi.AlwaysFollowedByE(from, hit, nil)
+}
+
+// AlwaysFollowedByE additionally accepts CFG edges whose atom satisfies edgeHit
+// as discharging the obligation (e.g. "the entry is not a configuration").
+func (fi *FuncInfo) AlwaysFollowedByE(from ssa.Instruction, hit func(ssa.Instruction) bool, edgeHit func(Atom) bool) FollowResult {
 	type pos struct {
 		b *ssa.BasicBlock
 		i int
@@ -627,11 +755,14 @@ func (fi *FuncInfo) AlwaysFollowedBy(from ssa.Instruction, hit func(ssa.Instruct
 			if seen[s] || !FeasibleSucc(b, si) {
 				continue
 			}
-			seen[s] = true
 			via := ""
 			if a, ok := fi.EdgeAtom(Edge{b, si}); ok {
 				via = "[" + a.String() + "]"
+				if edgeHit != nil && edgeHit(a) {
+					continue
+				}
 			}
+			seen[s] = true
 			np := append(append([]string{}, it.path...), via)
 			if via == "" {
 				np = it.path
@@ -746,3 +877,66 @@ func (p *Program) GoSites(fn *ssa.Function) []*ssa.Go {
 }
 
 var _ = token.NoPos
+
+// RangeHeader finds the loop header block of `for ... range <expr>`: the block
+// whose If tests each(expr).ok. ord selects the n-th such loop (0-based, in
+// block order).
+func (fi *FuncInfo) RangeHeader(rangeExpr string, ord int) *ssa.BasicBlock {
+	k := 0
+	for _, b := range fi.Fn.Blocks {
+		if a, ok := fi.EdgeAtom(Edge{b, 0}); ok && a.Op == "true" && a.L == "each("+rangeExpr+").ok" {
+			if k == ord {
+				return b
+			}
+			k++
+		}
+	}
+	return nil
+}
+
+// LoopBodyMustCross decides: every path through the loop body (from the
+// header's true edge back to the header) crosses an edge satisfying pass. A
+// path that leaves the function (return/panic) is fine.
+func (fi *FuncInfo) LoopBodyMustCross(header *ssa.BasicBlock, pass func(Atom) bool) GateResult {
+	type st struct {
+		b    *ssa.BasicBlock
+		prev *st
+		via  string
+	}
+	body := header.Succs[0]
+	seen := map[*ssa.BasicBlock]bool{body: true}
+	q := []*st{{b: body}}
+	gates := 0
+	for len(q) > 0 {
+		s := q[0]
+		q = q[1:]
+		if s.b == header {
+			var parts []string
+			for x := s; x != nil; x = x.prev {
+				if x.via != "" {
+					parts = append([]string{x.via}, parts...)
+				}
+			}
+			return GateResult{OK: false, Witness: strings.Join(parts, " ; "), Gates: gates}
+		}
+		for i, succ := range s.b.Succs {
+			if !FeasibleSucc(s.b, i) {
+				continue
+			}
+			via := ""
+			if a, ok := fi.EdgeAtom(Edge{s.b, i}); ok {
+				via = "[" + a.String() + "]"
+				if pass(a) && s.b.Succs[0] != s.b.Succs[1] {
+					gates++
+					continue
+				}
+			}
+			if seen[succ] && succ != header {
+				continue
+			}
+			seen[succ] = true
+			q = append(q, &st{b: succ, prev: s, via: via})
+		}
+	}
+	return GateResult{OK: true, Gates: gates}
+}
